@@ -21,6 +21,8 @@ Known classes
   C14-implicit-table-span       a table that only a longer [header] mentions has no span: Spanned<..> over it fails.
   C14-spanned-option-missing    a struct field `Spanned<Option<T>>` whose key is missing fails (missing_field asks the
                                 MissingFieldDeserializer for a struct) where `Option<T>` alone is None.
+  private-datetime-key (F14)    a date-time read as a map hands out the private tunnel key `$__toml_private_datetime`,
+                                which is no document key and has no span (plain Map<String, _> ok, Map<Spanned<String>, _> err).
   C14-spanned-newtype-key       a map key `Spanned<Newtype(String)>` (or a nested Spanned) fails: KeyDeserializer hands
                                 the key TEXT to serde's StrDeserializer, which only offers visit_str.
 The correspondence (compare) is with coq/Model/SerdeSpanned.v de_s on the span tree the Coq parser
@@ -393,6 +395,10 @@ def judge(case, line):
     if G.mentions_private(ty, None, case.args[1].decode("utf-8", "replace")):
         cls = cls or "private-datetime-key"
     w, p = f.get("w_t", ""), f.get("p_t", "")
+    if "245f5f746f6d6c5f70726976617465" in p or "245f5f73657264655f7370616e6e6564" in p:
+        # a date-time read as a MAP shows the private tunnel key (F14): Map<String, _> accepts it, Map<Spanned<String>, _>
+        # cannot (the tunnel key is not a document key and has no span)
+        cls = cls or "private-datetime-key"
     for a, b in (("w_t", "w_e"), ("p_t", "p_e")):
         if f.get(a) != f.get(b):
             out.append(("toml::from_str and toml_edit::de::from_str disagree: %s=%s %s=%s" % (a, f.get(a, "")[:100], b, f.get(b, "")[:100]), None))
